@@ -337,6 +337,23 @@ pub fn gen(rng: &mut Rng, tier: Tier, out: &mut Vec<String>) {
         let nops = 1 + rng.below(8);
         out.push(format!("sp_vhist q {} {} {} {} {} {}", rows, cols, wr_vec(&val), wr_vec(&ri), wr_vec(&cs), gen_ops_overwrite::<Q>(rng, rows, cols, &pos, nops)));
     }
+
+    // LARGER SHAPES (11 .. 48 rows / columns, up to a few hundred stored entries): stored-entry counts and column counts
+    // across the thresholds of a blocked loop
+    for i in 0..(if tier == Tier::Quick { 16 } else { 400 }) {
+        let (rows, cols) = (big(rng, 48), if rng.chance(50) { big(rng, 48) } else { 1 + rng.below(48) });
+        let density = *rng.pick(&[3usize, 8, 20, 50]);
+        let nops = 1 + rng.below(8);
+        if i % 2 == 0 { let v = gen_pattern::<Q>(rng, rows, cols, density); out.push(format!("sp_hist q {} {} {} {}", rows, cols, trips_str(&v), gen_ops::<Q>(rng, rows, cols, nops))); }
+        else { let v = gen_pattern::<f64>(rng, rows, cols, density); out.push(format!("sp_hist f {} {} {} {}", rows, cols, trips_str(&v), gen_ops::<f64>(rng, rows, cols, nops))); }
+    }
+    // exactly k stored entries for every k in 0..=70 (one scaling, one transposition, reads)
+    for k in 0..=70usize { if tier == Tier::Quick && k % 3 == 1 && k > 20 { continue; }
+        let (rows, cols) = (3 + rng.below(9), 6 + rng.below(7));
+        let mut cells: Vec<usize> = (0..rows * cols).collect(); for i in (1..cells.len()).rev() { let j = rng.below(i + 1); cells.swap(i, j); }
+        let v: Vec<(usize, usize, Q)> = cells.iter().take(k.min(rows * cols)).map(|c| (c / cols, c % cols, { let mut q = Q::gen(rng, 0, 0); if q == Q::int(0) { q = Q::int(3); } q })).collect();
+        out.push(format!("sp_hist q {} {} {} 4 scale {} get {} {} transpose get {} {}", rows, cols, trips_str(&v), Q::int(2 + (k % 3) as i128).wr(), rng.below(rows), cols - 1, cols - 1, rng.below(rows)));
+    }
 }
 
 /// history that mostly overwrites EXISTING entries (positions taken from `pos`), with a few new ones
@@ -395,5 +412,15 @@ pub fn gen_c07(rng: &mut Rng, tier: Tier, out: &mut Vec<String>) {
             let k = 2 + rng.below(2); let v = gen_pattern_k::<f64>(rng, rows, cols, density, k);
             out.push(format!("sp_prod f {} {} {} {} {} {}", rows, cols, trips_str(&v), gen_vec_str::<f64>(rng, cols, 10, k), gen_vec_str::<f64>(rng, rows, 10, k), f64::gen(rng, 0, 3).wr()));
         }
+    }
+
+    // LARGER SHAPES
+    for i in 0..(if tier == Tier::Quick { 24 } else { 500 }) {
+        let (rows, cols) = (big(rng, 65), if rng.chance(50) { big(rng, 65) } else { 1 + rng.below(65) });
+        let density = *rng.pick(&[2usize, 6, 15, 40]);
+        if i % 2 == 0 { let v = gen_pattern::<Q>(rng, rows, cols, density);
+            out.push(format!("sp_prod q {} {} {} {} {} {}", rows, cols, trips_str(&v), gen_vec_str::<Q>(rng, cols, 10, 0), gen_vec_str::<Q>(rng, rows, 10, 0), Q::gen(rng, 5, 0).wr())); }
+        else { let v = gen_pattern::<f64>(rng, rows, cols, density);
+            out.push(format!("sp_prod f {} {} {} {} {} {}", rows, cols, trips_str(&v), gen_vec_str::<f64>(rng, cols, 10, 1), gen_vec_str::<f64>(rng, rows, 10, 1), f64::gen(rng, 5, 1).wr())); }
     }
 }
